@@ -106,7 +106,7 @@ META["C11"] = dict(
     engine="net",
     design_ref="DESIGN.md 3/C11",
     technique="fuzzing / property-based testing with a scripted raw TCP peer: generated handshake variations and grammar-mutated post-handshake frame sequences against a real server, with a well-behaved real client on a second connection as the confinement oracle",
-    level_text="Exploration: 15 handshake variations (each required to occur) followed by marked channel opens, and post-handshake scripts of up to 25 frames with unknown codes, missing ids, nested batches, duplicate ids, extreme window deltas, structurally corrupted encodings, truncated and oversized frames and open bursts. Oracle: no handler ever runs for a marker sent on a connection whose handshake did not complete with the protocol line and a common version; a violating or refused connection is closed; the server keeps running and a healthy client on another connection keeps echoing correctly with its connection open.",
+    level_text="Exploration: 16 handshake variations (each required to occur; version lists drawn from 1..9, 11.., 0, negative and extreme values, with and without the one existing version) followed by marked channel opens, and post-handshake scripts of up to 25 frames with unknown codes, missing ids, nested batches, duplicate ids, extreme window deltas, structurally corrupted encodings, truncated and oversized frames and open bursts. Oracle: no handler ever runs for a marker sent on a connection whose handshake did not complete with the protocol line and a common version; a violating or refused connection is closed; the server keeps running and a healthy client on another connection keeps echoing correctly with its connection open.",
     level_note="Handler absence is checked after the socket closes (or after a grace period for the keep-waiting variants: miss-only direction). Process death is attributed by the driver to the journaled case.",
 )
 
